@@ -2,7 +2,7 @@
    correspondence cases (tools/props/c02.py). No proofs. *)
 From Coq Require Import List ZArith Bool Arith.
 From PV Require Import Base.Index Base.Perm Base.Sum Np.NpZ Np.Array Model.Sparse Model.Repr Model.Harness
-                       Model.C02Spec Model.C02Dense Model.C02Sparse Model.C02Modes Model.C02Kruskal Model.C02SpKernels Model.C02Absorb.
+                       Model.C02Spec Model.C02Dense Model.C02Sparse Model.C02Modes Model.C02Kruskal Model.C02SpKernels Model.C02Absorb Model.C02Tenmat Model.C02SpMore Model.C02KruskalMore Model.C02Tucker.
 Import ListNotations.
 
 Definition zsp_ttv := @spec_ttv Z 0%Z Z.add Z.mul.
@@ -79,3 +79,33 @@ Definition zimpl_mttkrp_sp := @impl_mttkrp_sp Z 0%Z 1%Z Z.add Z.mul.
 
 (* get_mttkrp_factors for a Kruskal operand (weights absorbed into factor 1 if n = 0 else factor 0) *)
 Definition zget_mttkrp_factors_k := @get_mttkrp_factors_k Z Z.mul.
+
+(* the 50%-fill switch of the sparse kernels (sptensor.ttv / contract): the result is densified iff more than half of the entries
+   of the expected array f on shape s are nonzero (nnz > 0.5 * prod(shape)); isdense = the container pyttb returned *)
+Definition zswitch_ok (s : shape) (f : idx -> Z) (isdense : bool) : bool :=
+  Bool.eqb (size s <? 2 * length (filter (fun k => negb (f (ind2sub s k) =? 0)%Z) (seq 0 (size s)))) isdense.
+
+(* wave 3: the matricisation-route kernels of tensor.py (Model/C02Tenmat.v) at Z *)
+Definition zimpl_ttt_dense := @impl_ttt_dense Z 0%Z Z.add Z.mul.
+Definition zimpl_collapse_dense := @impl_collapse_dense Z 0%Z (sumv 0%Z Z.add).
+Definition zimpl_contract_dense := @impl_contract_dense Z 0%Z Z.add.
+Definition zimpl_scale_dense := @impl_scale_dense Z 0%Z Z.mul.
+Definition zimpl_mask_dense := @impl_mask_dense Z 0%Z.
+
+(* wave 3: sparse kernels over the coordinate list (Model/C02SpKernels.v, Model/C02SpMore.v) at Z *)
+Definition zimpl_ttv_sp := @impl_ttv_sp Z 0%Z 1%Z Z.add Z.mul.
+Definition zimpl_ttm_sp := @impl_ttm_sp Z 0%Z Z.add Z.mul.
+Definition zimpl_collapse_sp := @impl_collapse_sp Z 0%Z Z.add.
+Definition zimpl_contract_sp := @impl_contract_sp Z 0%Z Z.add.
+Definition zimpl_scale_sp := @impl_scale_sp Z Z.mul zisz.
+Definition zimpl_mask_sp := @impl_mask_sp Z 0%Z.
+Definition sp_raw_eqb (A B : sparse Z) : bool :=
+  nvec_eqb (sshape A) (sshape B) && list_eqb nvec_eqb (ssubs A) (ssubs B) && vec_eqb (svals A) (svals B).
+
+(* wave 3: Kruskal ttv over several modes, Tucker ttm (list form) at Z; raw comparison of weights / factors / core *)
+Definition zimpl_ttv_k := @impl_ttv_k Z 0%Z 1%Z Z.add Z.mul.
+Definition zimpl_ttm_t := @impl_ttm_t Z 0%Z Z.add Z.mul.
+Definition zsumw (K : ktensor Z) : Z := fold_right Z.add 0%Z (kweights K).
+Definition t_eqb (A B : ttensor Z) : bool := dense_eqb (tcore A) (tcore B) && list_eqb mat_eqb (tfactors A) (tfactors B).
+Definition zimpl_ttv_t := @impl_ttv_t Z 0%Z Z.add Z.mul.
+Definition zimpl_mttkrp_t := @impl_mttkrp_t Z 0%Z Z.add Z.mul.
